@@ -62,7 +62,8 @@ func genData(r *Rng) map[string]any {
 	d["emp"] = []any{}
 	d["st"] = T1{Name: "Sue", Age: 3, Tags: []string{"t1", "t2"}}
 	d["nilv"] = nil
-	d["fname"] = "f1"
+	d["fname"] = r.Pick([]string{"f1", "f1", "f2", "f3", "nosuch"})
+	d["fnames"] = []any{r.Pick([]string{"f1", "f2"}), r.Pick([]string{"f1", "f2", "f3"}), "f1"}[:1+r.Intn(3)]
 	return d
 }
 
